@@ -111,6 +111,15 @@ pub struct BitVector {
 }
 
 impl BitVector {
+    /// Verification hook: attaches ready-made support structures.
+    #[cfg(simple_sds_verif)]
+    #[doc(hidden)]
+    pub fn verif_set_supports(&mut self, rank: Option<RankSupport>, select: Option<SelectSupport<Identity>>, select_zero: Option<SelectSupport<Complement>>) {
+        self.rank = rank;
+        self.select = select;
+        self.select_zero = select_zero;
+    }
+
     /// Returns a copy of the source bitvector as `BitVector`.
     ///
     /// The copy is created by iterating over the set bits using [`Select::one_iter`].
